@@ -1,0 +1,22 @@
+//go:build verif
+
+package storage
+
+import (
+	"bytes"
+
+	"github.com/janelia-flyem/dvid/dvid"
+)
+
+// Lemma functions: never called, they exist so that the verifier (/verif/cmd/govc) can prove statements
+// that involve several real functions at once.
+
+// verifLemmaInstanceKeysInRange: any data key of instance i lies in [min, max) of DataInstanceKeyRange(i),
+// any data key of another instance lies outside (C06: a range scan over an instance sees all of its keys
+// and none of another instance's).
+func verifLemmaInstanceKeysInRange(i, j dvid.InstanceID, tk TKey, v dvid.VersionID, c dvid.ClientID) (c1, c2, c3, c4 int) {
+	min, max := DataInstanceKeyRange(i)
+	ki := constructDataKey(i, v, c, tk)
+	kj := constructDataKey(j, v, c, tk)
+	return bytes.Compare(min, ki), bytes.Compare(ki, max), bytes.Compare(kj, min), bytes.Compare(kj, max)
+}
